@@ -218,8 +218,8 @@ UNITS['c01'] = {
     'template': 'contracts/c01.vrs',
     'rlimit': 30,
     'mutants': [
-        ('duplicate_resource_path_not_rejected', 'if ({ let mut __r4_1 = false;', 'if false && ({ let mut __r4_1 = false;', ['C02.paths.eval_program']),
-        ('duplicate_property_not_rejected', 'props.push(p);', 'props.push(p.clone()); props.push(p);', ['C02.object.eval_object']),
+        ('duplicate_resource_path_not_rejected', 'if r.uri.pattern() == pattern { __r4_1 = true; break; }', 'if false { __r4_1 = true; break; }', ['C02.paths.eval_program', 'C01.site.eval_program']),
+        ('duplicate_property_not_rejected', 'if text_eq(&q.name, &p.name) { __r4_1 = true; break; }', 'if false { __r4_1 = true; break; }', ['C02.object.eval_object', 'C01.site.eval_object']),
         ('duplicate_path_variable_not_rejected', 'if let Some(p) = rel.uri.duplicate_variable() {', 'if let (Some(p), false) = (rel.uri.duplicate_variable(), true) {', ['C03.path.eval_program']),
         ('headers_guard_removed', 'if !matches!(rhs.0.dereference(), Expr::Object(_)) {', 'if false {', ['C01.site.eval_content']),
         ('domain_guard_removed', 'if !value.0.is_content_like() {', 'if false {', ['C01.site.eval_transfer']),
